@@ -30,7 +30,7 @@ def obligations(tier):
             # place where 'is there a reading?' shortcuts that test truthiness start rescanning
             obs.append(Ob(f"standalone-flat-history/{spec_name((kind, name, kw))}", dict(spec=[kind, name, kw], n0=n0, grow=grow, host="indicator", tail=min(tail, 1), flat=True), CFG,
                           weight=10, budget_s=300, max_paths=20000, selfcheck=False))
-        if kind == "ind" and name in ("EMA", "ATR", "KC", "MACD", "BBANDS", "RSI", "STOCH", "TSI", "Supertrend", "HMA", "VWAP", "SMA"):
+        if kind == "ind" and name not in ("ADX",):
             # two candles per append: the resume logic must find the last computed candle further back than the newest
             obs.append(Ob(f"standalone-append2/{spec_name((kind, name, kw))}", dict(spec=[kind, name, kw], n0=n0, grow=grow, host="indicator", tail=0, chunk=2), CFG,
                           weight=10, budget_s=300, max_paths=20000, selfcheck=False))
